@@ -84,6 +84,17 @@ fn exec_one<P: Prop>(
     let mut tape = Tape::generate(mix(rs, 2));
     let ent = mix(rs, 3);
     let r = P::run(&wl, &mut tape, ent);
+    // debugging aid: DSIM_DUMP_EVENTS=<run index> writes that run's event log to stderr
+    if let (Ok(want), Ok(rep)) = (std::env::var("DSIM_DUMP_EVENTS"), &r) {
+        if want.parse::<u64>().ok() == Some(idx) {
+            for e in rep.events.iter() {
+                eprintln!(
+                    "EV {} a{} {:?} {} | {} len={} {:?} -> {} errno={}",
+                    e.step, e.actor, e.kind, e.path, e.path2, e.len, e.action, e.ret, e.errno
+                );
+            }
+        }
+    }
     (wl, ent, r)
 }
 
